@@ -1136,3 +1136,9 @@ B('C01', 'checked_get_type accepts a negative de Bruijn index', TERM,
   "                bodyT = rec(t.body, [t.var_T] + bd_vars)\n                return TFun(t.var_T, bodyT)\n            elif t.is_bound():\n                if t.n >= len(bd_vars):", 'C01.K18', 'checked_get_type')
 B('C04', 'imp_to_or expansion walks over the goal as well', VM,
   "        disjs = []\n        for arg in args[:-1]:\n            if arg.is_not():", "        disjs = []\n        for arg in args:\n            if arg.is_not():", 'C04.M18', 'imp_to_or')
+B('C04', 'nat_const_ineq decides from the values of the numerals alone', 'data/nat.py',
+  "        return m.get_type() == NatType and m.is_number() and n.is_number() and m.dest_number() != n.dest_number()", "        return m.is_number() and n.is_number() and m.dest_number() != n.dest_number()", 'C04.M19', 'nat_const_ineq')
+B('C14', 'nat_const_less_eq offered for numerals of any type', 'data/nat.py',
+  "        return m.get_type() == NatType and m.is_number() and n.is_number() and m.dest_number() <= n.dest_number()", "        return m.is_number() and n.is_number() and m.dest_number() <= n.dest_number()", 'C14.S11', 'nat_const_less_eq')
+N('C04', 'nat_const_ineq tests the type with is_nat', 'data/nat.py',
+  "        return m.get_type() == NatType and m.is_number() and n.is_number() and m.dest_number() != n.dest_number()", "        if not m.is_nat():\n            return False\n        return m.is_number() and n.is_number() and m.dest_number() != n.dest_number()")
